@@ -1,7 +1,8 @@
 #!/bin/sh
 # dev helper: run every kept seeded change (/verif/seeded/<PID>/<k>/patch.diff) against checks; print caught / missed.
 # usage: tools/seed_eval.sh [-a "PIDs to check against every seed"] [PID[/k] ...]
-cd /verif
+HERE="$(cd "$(dirname "$0")/.." && pwd)"
+cd "$HERE"
 ALSO=""
 if [ "$1" = "-a" ]; then ALSO="$2"; shift 2; fi
 SEL="$@"; [ -z "$SEL" ] && SEL=$(ls -d seeded/C* | sed 's,seeded/,,')
@@ -11,10 +12,12 @@ for sel in $SEL; do
     dd=${dd%/}; p=$(echo $dd | cut -d/ -f2); k=$(basename $dd)
     D="$(mktemp -d /tmp/pyvc_scratch.XXXXXX)"
     git -C /repo worktree add -q --detach "$D" HEAD 2>/dev/null
-    if ( cd "$D" && git apply "/verif/$dd/patch.diff" 2>/dev/null ); then
+    if ( cd "$D" && git apply "$HERE/$dd/patch.diff" 2>/dev/null ); then
+      FIRST=1
       for q in $p $ALSO; do
-        [ "$q" = "$p" ] && [ "$q" != "$(echo $p $ALSO | cut -d' ' -f1)" ] && continue
-        OUT=$(cd /verif && PYVC_REPO_SRC="$D/src" timeout 2400 ./check "$q" 2>&1); RC=$?
+        if [ "$q" = "$p" ] && [ "$FIRST" = "0" ]; then continue; fi
+        FIRST=0
+        OUT=$(cd "$HERE" && PYVC_REPO_SRC="$D/src" timeout 2400 ./check "$q" 2>&1); RC=$?
         V=$(echo "$OUT" | grep -c '^VIOLATION')
         echo "seed=$p/$k check=$q exit=$RC violations=$V $(echo "$OUT" | grep -m1 '   obligation' | cut -c1-120)"
       done
